@@ -43,6 +43,18 @@ type Prog struct {
 	// own with parse.Clause and its head with parse.Atom / parse.Term (more traffic through the
 	// pooled lexers and parsers); the printed forms become part of the result.
 	Pieces bool `json:"pieces,omitempty"`
+	// TouchTZ: whatever the shape, the job first writes the process-wide default timezone with its
+	// default value (ast.SetTimezone("UTC")) and reads it through ast.DateTime; the instant it gets
+	// is part of the result.
+	TouchTZ bool `json:"touch_tz,omitempty"`
+	// Bounds: analyse with analysis.ErrorForBoundsMismatch (the bounds checker and the type helpers run).
+	Bounds bool `json:"bounds,omitempty"`
+	// Uses lists the built-in symbols and families the text was built from (coverage labels only).
+	Uses []string `json:"uses,omitempty"`
+	// Zones are the IANA zone names the civil-time functions of the text look up; Cold of them had
+	// not been used in this process before the case (bookkeeping of the generator, labels only).
+	Zones []string `json:"zones,omitempty"`
+	Cold  int      `json:"cold,omitempty"`
 }
 
 // ProgCase is a set of jobs run side by side. Observed is filled in when a run of it failed.
@@ -85,6 +97,14 @@ func runJob(p Prog, evalTime time.Time) (res []string) {
 			return []string{"ERR default timezone is " + loc.String()}
 		}
 	}
+	var tzLine string
+	if p.TouchTZ {
+		if err := ast.SetTimezone("UTC"); err != nil {
+			return []string{"ERR timezone: " + err.Error()}
+		}
+		tzLine = fmt.Sprintf("tz-helper: %d", ast.DateTime(2024, time.March, 10, 2, 30).UnixNano())
+		defer func() { res = append(res, tzLine) }()
+	}
 	var pieces []string
 	if p.Pieces {
 		for _, line := range strings.Split(p.Text, "\n") {
@@ -121,7 +141,12 @@ func runJob(p Prog, evalTime time.Time) (res []string) {
 	if err != nil {
 		return []string{"ERR parse: " + err.Error()}
 	}
-	info, err := analysis.AnalyzeOneUnit(unit, nil)
+	var info *analysis.ProgramInfo
+	if p.Bounds {
+		info, err = analysis.AnalyzeAndCheckBounds([]parse.SourceUnit{unit}, nil, analysis.ErrorForBoundsMismatch)
+	} else {
+		info, err = analysis.AnalyzeOneUnit(unit, nil)
+	}
 	if err != nil {
 		return []string{"ERR analysis: " + err.Error()}
 	}
@@ -149,6 +174,9 @@ func runJob(p Prog, evalTime time.Time) (res []string) {
 			return []string{"ERR eval: " + err.Error()}
 		}
 		for _, pred := range st.ListPredicates() {
+			if strings.HasPrefix(pred.Symbol, hiddenPredPrefix) {
+				continue
+			}
 			st.GetFacts(ast.NewQuery(pred), func(a ast.Atom) error {
 				res = append(res, val.AtomKey(a))
 				return nil
@@ -175,7 +203,7 @@ func sameResult(a, b []string) bool {
 }
 
 func outcome(res []string) string {
-	if len(res) >= 1 && len(res) <= 2 {
+	if len(res) >= 1 && len(res) <= 3 {
 		for _, p := range []string{"ERR parse", "ERR analysis", "ERR eval", "ERR", "PANIC"} {
 			if strings.HasPrefix(res[0], p) {
 				return strings.ToLower(strings.ReplaceAll(p, " ", "-"))
@@ -192,15 +220,11 @@ func (c ProgCase) evalTime() time.Time {
 	return time.Date(2024, time.February, c.EvalDay, 12, 0, 0, 0, time.UTC)
 }
 
-// aloneRuns is how often a job is run alone beforehand; the results must agree with each other,
-// otherwise the job is not a function of its text (sequential nondeterminism: not C18's subject).
-const aloneRuns = 2
-
-// checkPrograms judges c. parallelFirst runs the side-by-side phase before the alone phase (used
-// by the cold-start test, where the interesting state is the not yet filled caches of the parser).
-func checkPrograms(run *stats.Run, f stats.Failer, c ProgCase, raced func() bool) verdict {
-	return checkProgramsOrder(run, f, c, raced, false)
-}
+// aloneRuns is how often a job is run alone (after the side-by-side phase) to get the expected result.
+// One run is enough: a parallel result that differs from it is compared with 20 further alone runs
+// before it is called interference, which is where a job that is not a function of its text
+// (sequential nondeterminism: not C18's subject) is recognised.
+const aloneRuns = 1
 
 type jobResult struct {
 	results    [][]string
@@ -232,26 +256,26 @@ func runParallel(c ProgCase) []jobResult {
 	return out
 }
 
-func checkProgramsOrder(run *stats.Run, f stats.Failer, c ProgCase, raced func() bool, parallelFirst bool) verdict {
+// checkPrograms judges c. The side-by-side phase comes FIRST: whatever the library builds lazily or
+// memoises (parser pools and prediction caches, per-zone, per-symbol or per-constant tables) for the
+// symbols, constants and zone names of this case is then still missing, and several goroutines reach
+// it together. The alone runs that give the expected results follow; running them first would warm
+// every such structure and hide a defect on its cold path.
+func checkPrograms(run *stats.Run, f stats.Failer, c ProgCase, raced func() bool) verdict {
 	c.Observed, c.Note = nil, ""
 	v := verdict{labels: []string{fmt.Sprintf("jobs:%d", len(c.Progs))}}
 	et := c.evalTime()
-	var par []jobResult
-	sideBySide := func() {
-		par = runParallel(c)
-		if raced != nil && raced() {
-			fc := c
-			fc.Note = "data race reported while these programs ran side by side"
-			failCase(run, f, fc, "data race reported by the race detector while %d programs were parsed/analysed/evaluated side by side; report is in the log; programs:\n%s", len(c.Progs), describePrograms(c))
-		}
-	}
-	if parallelFirst {
-		sideBySide()
+	par := runParallel(c)
+	if raced != nil && raced() {
+		fc := c
+		fc.Note = "data race reported while these programs ran side by side"
+		failCase(run, f, fc, "data race reported by the race detector while %d programs were parsed/analysed/evaluated side by side; report is in the log; programs:\n%s", len(c.Progs), describePrograms(c))
 	}
 	alone := make([][]string, len(c.Progs))
 	deterministic := make([]bool, len(c.Progs))
 	texts := map[string]bool{}
-	okJobs := 0
+	uses := map[string]bool{}
+	okJobs, coldJobs, coldZones, zoneJobs, tzJobs := 0, 0, 0, 0, 0
 	for i, p := range c.Progs {
 		alone[i] = runJob(p, et)
 		deterministic[i] = true
@@ -266,11 +290,25 @@ func checkProgramsOrder(run *stats.Run, f stats.Failer, c ProgCase, raced func()
 		if o == "ok" {
 			okJobs++
 		}
-		if p.TZ != nil {
+		if p.TZ != nil || p.TouchTZ {
 			v.labels = append(v.labels, "timezone-helpers")
+			tzJobs++
 		}
 		if p.Pieces {
 			v.labels = append(v.labels, "single-clause-parsers")
+		}
+		if p.Bounds {
+			v.labels = append(v.labels, "bounds-checked")
+		}
+		for _, u := range p.Uses {
+			uses[u] = true
+		}
+		if p.Cold > 0 {
+			coldJobs++
+			coldZones += p.Cold
+		}
+		if len(p.Zones) > 0 {
+			zoneJobs++
 		}
 		if !deterministic[i] {
 			v.labels = append(v.labels, "alone-nondeterministic")
@@ -278,9 +316,6 @@ func checkProgramsOrder(run *stats.Run, f stats.Failer, c ProgCase, raced func()
 	}
 	if raced != nil && raced() {
 		failCase(run, f, c, "data race reported by the race detector while the programs were run one after the other (see log)")
-	}
-	if !parallelFirst {
-		sideBySide()
 	}
 	overlap := false
 	for i := range par {
@@ -318,6 +353,26 @@ func checkProgramsOrder(run *stats.Run, f stats.Failer, c ProgCase, raced func()
 				i, c.Progs[i].Shape, len(c.Progs)-1, clip(alone[i]), clip(got), c.Progs[i].Text)
 		}
 	}
+	for u := range uses {
+		v.labels = append(v.labels, "uses:"+u)
+	}
+	sort.Strings(v.labels)
+	// cold zone lookups: how many jobs of the case looked up a zone name the process had not used before
+	switch {
+	case coldJobs >= 2:
+		v.labels = append(v.labels, "cold-zone-jobs:2+")
+	case coldJobs == 1:
+		v.labels = append(v.labels, "cold-zone-jobs:1")
+	default:
+		v.labels = append(v.labels, "cold-zone-jobs:0")
+	}
+	if tzJobs >= 2 {
+		v.labels = append(v.labels, "default-timezone-jobs:2+")
+	}
+	if zoneJobs >= 2 {
+		v.labels = append(v.labels, "zone-lookup-jobs:2+")
+	}
+	run.Label("cold-zone-names", int64(coldZones))
 	if overlap {
 		v.labels = append(v.labels, "jobs-overlapped")
 	} else {
@@ -352,194 +407,279 @@ func (c ProgCase) hash() uint64 {
 }
 
 // ---------------------------------------------------------------------------------------------
-// Program shapes (text). Simple, deterministic Datalog: every constant is a small number, a short
-// name or a short string; no duplicate map keys, no fn:time:now, no wall clock.
+// Program shapes (text). Simple, deterministic Datalog; no duplicate map keys, no fn:time:now, no
+// wall clock. Every shape takes a suffix that has never been used in this process before (see
+// freshness below) and puts it into its predicate names, name constants and strings, so that any
+// state the library initialises lazily or memoises per symbol / per constant / per zone name is
+// still cold when the goroutines of the case reach it together.
 
-func node(i int) string { return fmt.Sprintf("/n%d", i) }
+func node(sfx string, i int) string { return fmt.Sprintf("/n%s/v%d", sfx, i) }
 
-func genEdges(t *rapid.T, pred string, nodes int) string {
+func genEdges(t *rapid.T, pred, sfx string, nodes int) string {
 	var sb strings.Builder
 	n := rapid.IntRange(2, 8).Draw(t, "edges")
 	for i := 0; i < n; i++ {
 		a := rapid.IntRange(0, nodes-1).Draw(t, "from")
 		b := rapid.IntRange(0, nodes-1).Draw(t, "to")
-		fmt.Fprintf(&sb, "%s(%s, %s).\n", pred, node(a), node(b))
+		fmt.Fprintf(&sb, "%s(%s, %s).\n", pred, node(sfx, a), node(sfx, b))
 	}
 	return sb.String()
 }
 
-func shapeTC(t *rapid.T) Prog {
-	sfx := rapid.SampledFrom([]string{"", "_a", "_b"}).Draw(t, "suffix")
-	text := genEdges(t, "e"+sfx, 5) +
-		fmt.Sprintf("path%[1]s(X, Y) :- e%[1]s(X, Y).\npath%[1]s(X, Z) :- path%[1]s(X, Y), e%[1]s(Y, Z).\n", sfx)
+func shapeTC(t *rapid.T, sfx string, _ []string) Prog {
+	text := genEdges(t, "e_"+sfx, sfx, 5) +
+		fmt.Sprintf("path_%[1]s(X, Y) :- e_%[1]s(X, Y).\npath_%[1]s(X, Z) :- path_%[1]s(X, Y), e_%[1]s(Y, Z).\n", sfx)
 	return Prog{Shape: "transitive-closure", Text: text}
 }
 
-func shapeNeg(t *rapid.T) Prog {
+func shapeNeg(t *rapid.T, sfx string, _ []string) Prog {
 	var sb strings.Builder
 	for i := 0; i < 5; i++ {
-		fmt.Fprintf(&sb, "node(%s).\n", node(i))
+		fmt.Fprintf(&sb, "node_%s(%s).\n", sfx, node(sfx, i))
 	}
-	sb.WriteString(genEdges(t, "e", 5))
-	fmt.Fprintf(&sb, "start(%s).\n", node(rapid.IntRange(0, 4).Draw(t, "start")))
-	sb.WriteString("reach(X) :- start(X).\nreach(Y) :- reach(X), e(X, Y).\nunreach(X) :- node(X), !reach(X).\n")
+	sb.WriteString(genEdges(t, "e_"+sfx, sfx, 5))
+	fmt.Fprintf(&sb, "start_%s(%s).\n", sfx, node(sfx, rapid.IntRange(0, 4).Draw(t, "start")))
+	fmt.Fprintf(&sb, "reach_%[1]s(X) :- start_%[1]s(X).\nreach_%[1]s(Y) :- reach_%[1]s(X), e_%[1]s(X, Y).\nunreach_%[1]s(X) :- node_%[1]s(X), !reach_%[1]s(X).\n", sfx)
 	return Prog{Shape: "negation", Text: sb.String()}
 }
 
-func shapeAgg(t *rapid.T) Prog {
+func shapeAgg(t *rapid.T, sfx string, _ []string) Prog {
 	var sb strings.Builder
+	fmt.Fprintf(&sb, "Decl w_%s(K, I, V) bound [/name, /number, /number].\n", sfx)
 	n := rapid.IntRange(2, 8).Draw(t, "rows")
 	for i := 0; i < n; i++ {
-		fmt.Fprintf(&sb, "w(/k%d, %d, %d).\n", rapid.IntRange(0, 2).Draw(t, "key"), i, rapid.IntRange(-5, 20).Draw(t, "weight"))
+		fmt.Fprintf(&sb, "w_%s(/k%s/g%d, %d, %d).\n", sfx, sfx, rapid.IntRange(0, 2).Draw(t, "key"), i, rapid.IntRange(-5, 20).Draw(t, "weight"))
 	}
-	sb.WriteString("total(K, S) :- w(K, _, V) |> do fn:group_by(K), let S = fn:sum(V).\n")
-	sb.WriteString("rows(N) :- w(_, I, _) |> do fn:group_by(), let N = fn:count().\n")
-	sb.WriteString("top(K, M) :- w(K, _, V) |> do fn:group_by(K), let M = fn:max(V).\n")
-	sb.WriteString("heavy(K) :- total(K, S), S > 10.\n")
-	return Prog{Shape: "aggregation", Text: sb.String()}
-}
-
-func shapeArith(t *rapid.T) Prog {
-	var sb strings.Builder
-	n := rapid.IntRange(2, 6).Draw(t, "numbers")
-	for i := 0; i < n; i++ {
-		fmt.Fprintf(&sb, "n(%d).\n", rapid.IntRange(0, 9).Draw(t, "n"))
-	}
-	k := rapid.IntRange(1, 5).Draw(t, "k")
-	fmt.Fprintf(&sb, "sq(X, Y) :- n(X), Y = fn:mult(X, X).\n")
-	fmt.Fprintf(&sb, "shifted(X, Y) :- n(X), Y = fn:plus(X, %d).\n", k)
-	fmt.Fprintf(&sb, "big(X) :- n(X), X > %d.\n", k)
-	fmt.Fprintf(&sb, "lbl(X, S) :- n(X), T = fn:number:to_string(X), S = fn:string:concat(\"v\", T).\n")
-	fmt.Fprintf(&sb, "pr(X, P) :- n(X), P = fn:pair(X, [X, %d]).\n", k)
-	fmt.Fprintf(&sb, "len(X, L) :- pr(X, P), :match_pair(P, _, Q), L = fn:list:len(Q).\n")
-	fmt.Fprintf(&sb, "st(X, R) :- n(X), R = {/id: X, /tag: \"t\"}.\n")
-	return Prog{Shape: "functions", Text: sb.String()}
+	fmt.Fprintf(&sb, "total_%[1]s(K, S) :- w_%[1]s(K, _, V) |> do fn:group_by(K), let S = fn:sum(V).\n", sfx)
+	fmt.Fprintf(&sb, "rows_%[1]s(N) :- w_%[1]s(_, I, _) |> do fn:group_by(), let N = fn:count().\n", sfx)
+	fmt.Fprintf(&sb, "top_%[1]s(K, M) :- w_%[1]s(K, _, V) |> do fn:group_by(K), let M = fn:max(V).\n", sfx)
+	fmt.Fprintf(&sb, "heavy_%[1]s(K) :- total_%[1]s(K, S), S > 10.\n", sfx)
+	return Prog{Shape: "aggregation", Text: sb.String(), Bounds: rapid.Bool().Draw(t, "bounds")}
 }
 
 func day(d int) string { return fmt.Sprintf("2024-01-%02d", d) }
 
-func shapeTInterval(t *rapid.T) Prog {
+const reachRules = `reachable_{S}(X, Y)@[S, E] :- link_{S}(X, Y)@[S, E].
+reachable_{S}(X, Z)@[S1, E1] :- reachable_{S}(X, Y)@[S1, E1], link_{S}(Y, Z)@[S2, E2], :time:ge(S1, S2), :time:le(E1, E2), :time:le(S1, E1).
+reachable_{S}(X, Z)@[S1, E2] :- reachable_{S}(X, Y)@[S1, E1], link_{S}(Y, Z)@[S2, E2], :time:ge(S1, S2), :time:lt(E2, E1), :time:le(S1, E2).
+reachable_{S}(X, Z)@[S2, E1] :- reachable_{S}(X, Y)@[S1, E1], link_{S}(Y, Z)@[S2, E2], :time:gt(S2, S1), :time:le(E1, E2), :time:le(S2, E1).
+reachable_{S}(X, Z)@[S2, E2] :- reachable_{S}(X, Y)@[S1, E1], link_{S}(Y, Z)@[S2, E2], :time:gt(S2, S1), :time:lt(E2, E1), :time:le(S2, E2).
+`
+
+func shapeTInterval(t *rapid.T, sfx string, _ []string) Prog {
 	var sb strings.Builder
-	sb.WriteString("Decl link(X, Y) temporal bound [/name, /name].\nDecl reachable(X, Y) temporal bound [/name, /name].\n")
+	fmt.Fprintf(&sb, "Decl link_%[1]s(X, Y) temporal bound [/name, /name].\nDecl reachable_%[1]s(X, Y) temporal bound [/name, /name].\n", sfx)
 	n := rapid.IntRange(2, 4).Draw(t, "links")
 	for i := 0; i < n; i++ {
 		d1 := rapid.IntRange(1, 20).Draw(t, "d1")
 		d2 := rapid.IntRange(d1, 28).Draw(t, "d2")
-		fmt.Fprintf(&sb, "link(%s, %s)@[%s, %s].\n", node(i), node(i+1), day(d1), day(d2))
+		fmt.Fprintf(&sb, "link_%s(%s, %s)@[%s, %s].\n", sfx, node(sfx, i), node(sfx, i+1), day(d1), day(d2))
 	}
-	sb.WriteString(`reachable(X, Y)@[S, E] :- link(X, Y)@[S, E].
-reachable(X, Z)@[S1, E1] :- reachable(X, Y)@[S1, E1], link(Y, Z)@[S2, E2], :time:ge(S1, S2), :time:le(E1, E2), :time:le(S1, E1).
-reachable(X, Z)@[S1, E2] :- reachable(X, Y)@[S1, E1], link(Y, Z)@[S2, E2], :time:ge(S1, S2), :time:lt(E2, E1), :time:le(S1, E2).
-reachable(X, Z)@[S2, E1] :- reachable(X, Y)@[S1, E1], link(Y, Z)@[S2, E2], :time:gt(S2, S1), :time:le(E1, E2), :time:le(S2, E1).
-reachable(X, Z)@[S2, E2] :- reachable(X, Y)@[S1, E1], link(Y, Z)@[S2, E2], :time:gt(S2, S1), :time:lt(E2, E1), :time:le(S2, E2).
-`)
+	sb.WriteString(strings.ReplaceAll(reachRules, "{S}", sfx))
 	return Prog{Shape: "temporal-intervals", Text: sb.String(), Temporal: true}
 }
 
-func shapeTSeq(t *rapid.T) Prog {
+func shapeTSeq(t *rapid.T, sfx string, _ []string) Prog {
 	var sb strings.Builder
-	sb.WriteString("Decl event_a(Name) temporal bound [/name].\nDecl event_b(Name) temporal bound [/name].\nDecl match(Name) bound [/name].\n")
+	fmt.Fprintf(&sb, "Decl event_a_%[1]s(Name) temporal bound [/name].\nDecl event_b_%[1]s(Name) temporal bound [/name].\nDecl match_%[1]s(Name) bound [/name].\n", sfx)
 	n := rapid.IntRange(1, 4).Draw(t, "users")
 	for i := 0; i < n; i++ {
 		ma := rapid.IntRange(0, 30).Draw(t, "minute_a")
 		mb := rapid.IntRange(0, 59).Draw(t, "minute_b")
-		fmt.Fprintf(&sb, "event_a(/u%d)@[2024-01-01T10:%02d:00].\nevent_b(/u%d)@[2024-01-01T10:%02d:00].\n", i, ma, i, mb)
+		fmt.Fprintf(&sb, "event_a_%[1]s(/u%[1]s/p%[2]d)@[2024-01-01T10:%02[3]d:00].\nevent_b_%[1]s(/u%[1]s/p%[2]d)@[2024-01-01T10:%02[4]d:00].\n", sfx, i, ma, mb)
 	}
-	lim := rapid.SampledFrom([]string{"5m", "10m", "20m"}).Draw(t, "limit")
-	fmt.Fprintf(&sb, "match(U) :- event_b(U)@[Tb], event_a(U)@[Ta], :time:lt(Ta, Tb), Diff = fn:time:sub(Tb, Ta), Limit = fn:duration:parse('%s'), :duration:le(Diff, Limit).\n", lim)
+	lim := rapid.SampledFrom([]string{"5m", "10m", "20m", "7m30s", "1h"}).Draw(t, "limit")
+	fmt.Fprintf(&sb, "match_%[1]s(U) :- event_b_%[1]s(U)@[Tb], event_a_%[1]s(U)@[Ta], :time:lt(Ta, Tb), Diff = fn:time:sub(Tb, Ta), Limit = fn:duration:parse('%[2]s'), :duration:le(Diff, Limit).\n", sfx, lim)
 	return Prog{Shape: "temporal-sequence", Text: sb.String(), Temporal: true}
 }
 
-func shapeTOp(t *rapid.T) Prog {
+func shapeTOp(t *rapid.T, sfx string, _ []string) Prog {
 	var sb strings.Builder
-	sb.WriteString("Decl active(X) temporal bound [/name].\n")
+	fmt.Fprintf(&sb, "Decl active_%s(X) temporal bound [/name].\n", sfx)
 	n := rapid.IntRange(1, 4).Draw(t, "users")
 	for i := 0; i < n; i++ {
 		d1 := rapid.IntRange(1, 25).Draw(t, "d1")
 		d2 := rapid.IntRange(d1, 31).Draw(t, "d2")
-		fmt.Fprintf(&sb, "active(/u%d)@[%s, %s].\n", i, day(d1), day(d2))
+		fmt.Fprintf(&sb, "active_%[1]s(/u%[1]s/p%[2]d)@[%[3]s, %[4]s].\n", sfx, i, day(d1), day(d2))
 	}
 	w := rapid.IntRange(1, 40).Draw(t, "window")
-	fmt.Fprintf(&sb, "recent(X) :- <-[0d, %dd] active(X).\n", w)
-	fmt.Fprintf(&sb, "steady(X) :- [-[%dd, %dd] active(X).\n", w, w+2)
+	fmt.Fprintf(&sb, "recent_%[1]s(X) :- <-[0d, %[2]dd] active_%[1]s(X).\n", sfx, w)
+	fmt.Fprintf(&sb, "steady_%[1]s(X) :- [-[%[2]dd, %[3]dd] active_%[1]s(X).\n", sfx, w, w+2)
+	fmt.Fprintf(&sb, "soon_%[1]s(X) :- <+[0d, %[2]dd] active_%[1]s(X).\n", sfx, w)
+	fmt.Fprintf(&sb, "lasting_%[1]s(X) :- [+[0d, 1d] active_%[1]s(X).\n", sfx)
 	return Prog{Shape: "temporal-operators", Text: sb.String(), Temporal: true}
 }
 
-func shapeTZ(t *rapid.T) Prog {
+func shapeTZ(t *rapid.T, sfx string, _ []string) Prog {
 	d1 := rapid.IntRange(1, 20).Draw(t, "d1")
 	d2 := rapid.IntRange(d1, 28).Draw(t, "d2")
-	text := "Decl tz(X) temporal bound [/name].\nDecl seen(X) temporal bound [/name].\nseen(X)@[S, E] :- tz(X)@[S, E].\n" +
-		fmt.Sprintf("Decl other(X) temporal bound [/name].\nother(/o)@[%s, %s].\n", day(d1), day(d2))
+	text := fmt.Sprintf("Decl tz(X) temporal bound [/name].\nDecl seen_%[1]s(X) temporal bound [/name].\nseen_%[1]s(X)@[S, E] :- tz(X)@[S, E].\n"+
+		"Decl other_%[1]s(X) temporal bound [/name].\nother_%[1]s(/o%[1]s)@[%[2]s, %[3]s].\n", sfx, day(d1), day(d2))
 	return Prog{Shape: "timezone-helpers", Text: text, Temporal: true, TZ: &TZFact{D1: d1, D2: d2}}
 }
 
 // shapeParseError: the error path of the parser (per-call error listeners on pooled parsers).
-func shapeParseError(t *rapid.T) Prog {
-	good := shapeTC(t).Text
+func shapeParseError(t *rapid.T, sfx string, _ []string) Prog {
+	good := shapeTC(t, sfx, nil).Text
 	bad := rapid.SampledFrom([]string{
 		"p(X :- q(X).\n", "foo(/a.\n", "bar(1) :- .\n", "r(X) :- s(X) |> do .\n", "q(\"unterminated).\n", "Decl d(X) bound [/number.\n", "p(1)) .\n",
 	}).Draw(t, "broken")
+	bad = strings.Replace(bad, "(", "_"+sfx+"(", 1)
 	if rapid.Bool().Draw(t, "first") {
 		return Prog{Shape: "parse-error", Text: bad + good}
 	}
 	return Prog{Shape: "parse-error", Text: good + bad}
 }
 
-// shapeAnalysisError: programs the analysis rejects.
-func shapeAnalysisError(t *rapid.T) Prog {
+// shapeAnalysisError: programs the analysis (or, with Bounds, the bounds checker) rejects.
+func shapeAnalysisError(t *rapid.T, sfx string, _ []string) Prog {
 	k := rapid.IntRange(0, 9).Draw(t, "k")
-	text := rapid.SampledFrom([]string{
-		"q(%d).\np(X) :- q(Y).\n",
-		"q(%d).\np(X) :- q(X), !r(Z).\nr(1).\n",
-		"q(%d).\np(X) :- undefined_pred(X).\n",
-		"q(%d).\np(X) :- q(X), !p(X).\n",
-		"q(%d).\np(Y) :- q(X), Y = fn:no_such_function(X).\n",
-	}).Draw(t, "rejected")
-	return Prog{Shape: "analysis-error", Text: fmt.Sprintf(text, k)}
+	i := rapid.IntRange(0, 6).Draw(t, "rejected")
+	text := []string{
+		"q_{S}({k}).\np_{S}(X) :- q_{S}(Y).\n",
+		"q_{S}({k}).\np_{S}(X) :- q_{S}(X), !r_{S}(Z).\nr_{S}(1).\n",
+		"q_{S}({k}).\np_{S}(X) :- undefined_{S}(X).\n",
+		"q_{S}({k}).\np_{S}(X) :- q_{S}(X), !p_{S}(X).\n",
+		"q_{S}({k}).\np_{S}(Y) :- q_{S}(X), Y = fn:no_such_function(X).\n",
+		"Decl q_{S}(X) bound [/string].\nq_{S}({k}).\np_{S}(X) :- q_{S}(X).\n",
+		"Decl q_{S}(X) bound [/number].\nDecl p_{S}(X) bound [/name].\nq_{S}({k}).\np_{S}(X) :- q_{S}(X).\n",
+	}[i]
+	return Prog{Shape: "analysis-error", Text: fill(text, map[string]string{"S": sfx, "k": fmt.Sprint(k)}), Bounds: i >= 5}
 }
 
-var shapes = []func(*rapid.T) Prog{
-	shapeTC, shapeNeg, shapeAgg, shapeArith, shapeTInterval, shapeTSeq, shapeTOp, shapeTZ, shapeTZ, shapeParseError, shapeAnalysisError,
+type shapeFn func(t *rapid.T, sfx string, zones []string) Prog
+
+type shapeDef struct {
+	fn    shapeFn
+	zones bool // the shape looks zone names up (civil-time functions)
 }
 
-func genProg(t *rapid.T) Prog {
-	p := shapes[rapid.IntRange(0, len(shapes)-1).Draw(t, "shape")](t)
+var builtinsShape = shapeDef{shapeBuiltins, true}
+
+var shapes = []shapeDef{
+	builtinsShape, builtinsShape, builtinsShape, {shapeTC, false}, {shapeNeg, false}, {shapeAgg, false}, {shapeTInterval, false},
+	{shapeTSeq, false}, {shapeTOp, false}, {shapeTZ, false}, {shapeParseError, false}, {shapeAnalysisError, false},
+}
+
+// ---------------------------------------------------------------------------------------------
+// Freshness. The suffix of a case and the zone names handed out as "cold" come from process-wide
+// bookkeeping, not from the seed: what matters is that the *library* has not seen them yet in this
+// process. (The schedule is not seed-reproducible anyway; the generated text is saved with the case.)
+
+var fresh struct {
+	sync.Mutex
+	serial    int
+	zoneStart int // rotation of zonePool, drawn by the first case of the process
+	zoneNext  int
+	started   bool
+	used      map[string]bool
+}
+
+// warmZones are handed out again and again: after their first use they are lookups that hit.
+var warmZones = []string{"UTC", "Europe/Berlin", "Asia/Tokyo", "America/New_York", "Australia/Sydney", "Africa/Nairobi"}
+
+// takeZones returns n zone names for one job: cold ones (never handed out in this process) while the
+// pool lasts, otherwise and for warm=true names that were used before. cold counts the former.
+func takeZones(t *rapid.T, n int, warm bool) (zones []string, cold int) {
+	fresh.Lock()
+	defer fresh.Unlock()
+	if fresh.used == nil {
+		fresh.used = map[string]bool{}
+	}
+	start := rapid.IntRange(0, len(zonePool)-1).Draw(t, "zonestart")
+	if !fresh.started {
+		fresh.started, fresh.zoneStart = true, start
+	}
+	for i := 0; i < n; i++ {
+		var z string
+		if !warm && fresh.zoneNext < len(zonePool) {
+			z = zonePool[(fresh.zoneStart+fresh.zoneNext)%len(zonePool)]
+			fresh.zoneNext++
+		} else {
+			z = warmZones[rapid.IntRange(0, len(warmZones)-1).Draw(t, "warmzone")]
+		}
+		if !fresh.used[z] {
+			cold++
+			fresh.used[z] = true
+		}
+		zones = append(zones, z)
+	}
+	return zones, cold
+}
+
+func nextSerial() int {
+	fresh.Lock()
+	defer fresh.Unlock()
+	fresh.serial++
+	return fresh.serial
+}
+
+func genProg(t *rapid.T, shape shapeDef, sfx string) Prog {
+	var zones []string
+	cold := 0
+	if shape.zones {
+		zones, cold = takeZones(t, rapid.IntRange(1, 2).Draw(t, "zones"), rapid.IntRange(0, 3).Draw(t, "warm") == 0)
+	}
+	p := shape.fn(t, sfx, zones)
+	if shape.zones {
+		p.Zones, p.Cold = zones, cold
+	}
 	if !p.Temporal {
 		p.Store = rapid.SampledFrom(progStoreKinds).Draw(t, "store")
 	}
 	p.Iter = rapid.IntRange(1, 3).Draw(t, "iter")
 	p.Pieces = rapid.IntRange(0, 2).Draw(t, "pieces") == 0
+	p.TouchTZ = rapid.IntRange(0, 2).Draw(t, "touchtz") == 0
 	return p
 }
 
-func genProgCase(t *rapid.T) ProgCase {
+// genProgCase: n jobs; the first two or three are built-in-family programs (so that in every case
+// several goroutines reach the library's per-zone / per-symbol state at the same time), the others
+// are drawn from all shapes. Jobs get the suffix of the case plus a letter, or (one in four) the
+// bare suffix of the case, so that some jobs of a case share predicate names and constants.
+func genProgCase(t *rapid.T, minJobs, maxJobs int) ProgCase {
 	c := ProgCase{EvalDay: rapid.IntRange(1, 28).Draw(t, "evalday")}
-	n := rapid.IntRange(4, 8).Draw(t, "jobs")
+	base := fmt.Sprintf("c%d", nextSerial())
+	n := rapid.IntRange(minJobs, maxJobs).Draw(t, "jobs")
+	forced := rapid.IntRange(2, 3).Draw(t, "builtin-jobs")
 	for i := 0; i < n; i++ {
 		// sometimes the same job twice: identical texts go through the same pooled objects
-		if i > 0 && rapid.IntRange(0, 7).Draw(t, "dup") == 0 {
+		if i >= forced && rapid.IntRange(0, 7).Draw(t, "dup") == 0 {
 			c.Progs = append(c.Progs, c.Progs[rapid.IntRange(0, i-1).Draw(t, "of")])
 			continue
 		}
-		c.Progs = append(c.Progs, genProg(t))
+		sfx := base
+		if rapid.IntRange(0, 3).Draw(t, "shared-names") != 0 {
+			sfx = fmt.Sprintf("%s%c", base, 'a'+i)
+		}
+		shape := builtinsShape
+		if i >= forced {
+			shape = shapes[rapid.IntRange(0, len(shapes)-1).Draw(t, "shape")]
+		}
+		c.Progs = append(c.Progs, genProg(t, shape, sfx))
 	}
 	return c
 }
 
-func TestC18Programs(t *testing.T) {
-	run := stats.Begin("C18", "TestC18Programs")
+func runProgramsTest(t *testing.T, name string, minJobs, maxJobs int) {
+	run := stats.Begin("C18", name)
 	lastFailure.Store(nil)
 	defer run.Finish(t)
-	defer clearInflight("TestC18Programs")
+	defer clearInflight(name)
 	defer restoreFailure(t, run)
+	first := true
 	rapid.Check(t, func(rt *rapid.T) {
-		c := genProgCase(rt)
+		c := genProgCase(rt, minJobs, maxJobs)
 		run.Current(c)
-		announce("TestC18Programs", c)
+		announce(name, c)
 		if t.Failed() {
 			t.FailNow()
 		}
 		v := checkPrograms(run, rt, c, func() bool { return t.Failed() })
+		if first {
+			v.labels = append(v.labels, "first-case-of-process")
+			first = false
+		}
 		run.Case(v.nontrivial, c.hash(), v.labels...)
 		if v.nontrivial {
 			run.Sample("parallel-programs", c)
@@ -547,31 +687,12 @@ func TestC18Programs(t *testing.T) {
 	})
 }
 
-// TestC18ColdParse runs in a fresh process (own run entry of checks.d/C18.json): the first thing
-// that happens to the library is 8 goroutines parsing, analysing and evaluating different programs
-// at once, with the parser's pools and prediction caches still empty; the alone runs come afterwards.
-func TestC18ColdParse(t *testing.T) {
-	run := stats.Begin("C18", "TestC18ColdParse")
-	lastFailure.Store(nil)
-	defer run.Finish(t)
-	defer clearInflight("TestC18ColdParse")
-	defer restoreFailure(t, run)
-	first := true
-	rapid.Check(t, func(rt *rapid.T) {
-		c := ProgCase{EvalDay: rapid.IntRange(1, 28).Draw(rt, "evalday")}
-		for i := 0; i < 8; i++ {
-			c.Progs = append(c.Progs, genProg(rt))
-		}
-		run.Current(c)
-		announce("TestC18ColdParse", c)
-		if t.Failed() {
-			t.FailNow()
-		}
-		v := checkProgramsOrder(run, rt, c, func() bool { return t.Failed() }, true)
-		if first {
-			v.labels = append(v.labels, "cold-start")
-			first = false
-		}
-		run.Case(v.nontrivial, c.hash(), append(v.labels, "parallel-first")...)
-	})
-}
+// TestC18Programs: in every case the side-by-side phase comes first, on text that contains symbols,
+// constants and zone names the process has not seen before; the alone runs follow.
+func TestC18Programs(t *testing.T) { runProgramsTest(t, "TestC18Programs", 4, 8) }
+
+// TestC18ColdParse runs in a fresh process (own run entry of checks.d/C18.json) with 8 goroutines per
+// case: the very first thing that happens to the library in that process is 8 goroutines parsing,
+// analysing and evaluating different programs at once (parser pools, prediction caches and every
+// other lazily built structure still empty).
+func TestC18ColdParse(t *testing.T) { runProgramsTest(t, "TestC18ColdParse", 8, 8) }
